@@ -78,6 +78,15 @@ func VH_C19_Verify() {
 			kdcIdx = i
 		}
 	}
+	if zzverif.Param("extra") == 1 {
+		// a fifth buffer of ANY type this library does not interpret (16 ticket signature, 19 full-PAC signature, ...),
+		// shaped like signature data.  For the server signature it is ordinary signed data.
+		typ := zzverif.Uint32()
+		for _, known := range []uint32{1, 2, 6, 7, 10, 11, 12, 13, 14, 15} {
+			zzverif.Assume(typ != known)
+		}
+		bufs = append(bufs, vhBuf{typ, zzverif.Bytes(4 + sl)})
+	}
 	data, offs := vhPAC(bufs)
 	srvOff, kdcOff := offs[srvIdx]+4, offs[kdcIdx]+4 // the Signature fields
 	cliOff := offs[cliIdx]
